@@ -477,6 +477,14 @@ def run(ctx):
             ("two-self-links", {"d/a.circom": tmpl % "A", "d/sub/b.circom": tmpl % "B"}, {"d/l1": ".", "d/l2": "."}),
             ("link-to-parent", {"d/a.circom": tmpl % "A", "d/sub/b.circom": tmpl % "B"}, {"d/sub/up": "..", "d/sub/up2": "../sub"}),
             ("link-to-sibling-dir", {"d/x/a.circom": tmpl % "A", "d/y/b.circom": tmpl % "B"}, {"d/x/toy": "../y", "d/y/tox": "../x"}),
+            # symbolic links to *files* in the named directory (seeded change C19/m6: the entries of a directory were pushed as found, so a
+            # file with a second name in the directory was read twice and the includes of a linked file were looked up next to the link):
+            # a second name for a file of the directory; a link to a file outside it that includes its own neighbour
+            ("link-to-file-in-directory", {"d/a.circom": tmpl % "A", "d/b.circom": tmpl % "B"}, {"d/a_again.circom": "a.circom"}),
+            ("link-to-file-outside", {"d/a.circom": tmpl % "A", "v/s.circom": "pragma circom 2.0.0;\ninclude \"u.circom\";\n" + (tmpl % "S").split("\n", 1)[1],
+                                      "v/u.circom": tmpl % "U"}, {"d/s.circom": "../v/s.circom"}),
+            ("link-to-file-and-include", {"d/a.circom": "pragma circom 2.0.0;\ninclude \"s.circom\";\n" + (tmpl % "A").split("\n", 1)[1],
+                                          "v/s.circom": tmpl % "S"}, {"d/s.circom": "../v/s.circom", "d/s2.circom": "../v/s.circom"}),
         ]
         for name, files, links in layouts:
             base = os.path.join(wd3.path, name)
@@ -487,7 +495,10 @@ def run(ctx):
             res = rl.run_cli(cli, {"inputs": [os.path.join(base, "d")], "libs": []}, timeout=20)
             stats["named-directory runs"] += 1
             analysed = sorted(re.findall(r"analyzing template '(\w+)'", res["stdout"]))
-            want = sorted(re.search(r"template (\w+)", t).group(1) for t in files.values())
+            # analysed: the templates of the files in (or linked from) the named directory, each once; a file that is only included is not
+            named = {os.path.realpath(os.path.join(base, rel)) for rel in files if rel.startswith("d/")} | \
+                    {os.path.realpath(os.path.join(base, rel)) for rel in links if os.path.isfile(os.path.join(base, rel))}
+            want = sorted(re.search(r"template (\w+)", t).group(1) for rel, t in files.items() if os.path.realpath(os.path.join(base, rel)) in named)
             if res["rc"] != 0 or analysed != want:
                 l1 += 1
                 ctx.violation("named-directory %s" % name, {"stage": "L1 a named directory with symbolic links back into the tree", "files": sorted(files), "links": links,
